@@ -125,6 +125,90 @@ def gen_tilt(rng):
             'amp': amp, 'piston': piston, 'shifts': shifts, 'dx': dx, 'du': du, 'fl': fl, 'os': os_, 'wavelength': wl,
             'oshape': oshape, 'pshape': pshape, 'chain': chain}
 
+def gen_phys(rng, prop):
+    """extremes stream, physical units: wavelength 1e-9 .. 1e-5 m; every segment gets its own OPD magnitude class — exactly 0,
+    nanometres (|opd| <= 1e-8 m, non-zero), ~100 nm, ~a wave — as piston plus figure; amplitudes 1e-9 .. 1e3; pixel scales,
+    focal length and output sampling in metres at magnitudes 1e-6 .. 1e1 (alpha is unit-free)"""
+    for _ in range(200):
+        c = gen_case(rng, 'cf', prop)
+        wl = float(rng.choice([13.5e-9, 1e-9, 5e-7, 6.33e-7, 1e-5]))
+        ok = True
+        for k, (ps, pm) in enumerate(zip(c['seg'], c['mono'])):
+            sh = pm['mask']['shape']; n = sh[0] * sh[1]
+            # per-segment classes follow the *partition* of this plane (the finest description available)
+            L = H7.plane_mask_layers(ps) if len(ps['mask']['layers']) > 1 else H7.plane_mask_layers(pm)
+            if len(L) == 1 and rng.integers(0, 2):          # split the single mask into two halves for the OPD classes
+                idx = np.argwhere(L[0]); half = np.zeros_like(L[0]); 
+                for (i, j) in idx[:len(idx) // 2]: half[i, j] = 1
+                L = [half, L[0] - half]
+            opd = np.zeros(sh)
+            for lay in L:
+                cls = int(rng.integers(0, 4))
+                mag = [0.0, 8e-9, 1.5e-7, wl][cls]
+                fig = rng.uniform(-1, 1, sh) * mag * (0.0 if rng.integers(0, 3) == 0 else 0.3)
+                opd += lay * (mag * float(rng.choice([-1, 1])) * float(rng.uniform(0.5, 1.0)) + fig)
+            ka = float(10.0 ** rng.integers(-9, 4))
+            a = pm['amp']
+            amp = {'scalar': float(a['scalar']) * ka} if 'scalar' in a else {'shape': a['shape'], 'v': [float(x) * ka for x in a['v']]}
+            o = {'shape': [int(sh[0]), int(sh[1])], 'v': [float(x) for x in opd.ravel()]}
+            for p in (ps, pm): p['amp'] = amp; p['opd'] = o
+        c['wavelength'] = wl
+        if prop:
+            pr = c['prop']
+            u = float(10.0 ** rng.integers(-6, 1))
+            dx = [u * x for x in pr['dx']]; v = float(10.0 ** rng.integers(-6, 0)); du = [v * x for x in pr['du']]
+            alpha = float(rng.uniform(0.04, 0.3))
+            z = dx[0] * du[0] / (alpha * wl * pr['os'])          # focal length in metres that gives this alpha
+            pr['dx'] = dx; pr['du'] = du; pr['z'] = z
+            for p in c['seg'] + c['mono']: p['px'] = dx; p['fl'] = z
+        c['extreme'] = 'phys'
+        return c
+
+def gen_big(rng):
+    """extremes stream, size: a slit-like aperture with 1030 .. 2600 rows (never a multiple of 1024) and 2..3 columns as one global
+    mask, against its partition into row bands of at most 1024 rows each; one plane; propagation to a small output. Oracle-only
+    (the interpreted model is not run on thousands of rows)."""
+    m = int(rng.choice([1030, 1100, 1200, 1500, 2049, 2600])) + int(rng.integers(0, 7))
+    if m % 1024 == 0: m += 3
+    ncol = int(rng.integers(2, 4))
+    shape = (m, ncol) if rng.integers(0, 4) else (ncol, m)
+    ax = 0 if shape[0] == m else 1
+    M = np.ones(shape, dtype=int)
+    if rng.integers(0, 2):        # trim the ends a little so that the bounding box is not the whole array
+        a, b = int(rng.integers(0, 3)), int(rng.integers(0, 3))
+        if ax == 0: M[:a] = 0; M[m - b:] = 0 if b else M[m - b:]
+        else: M[:, :a] = 0
+    K = int(np.ceil(m / 1024)) + int(rng.integers(0, 2))
+    cuts = sorted(int(x) for x in rng.choice(np.arange(m // (K + 1), m - m // (K + 1)), size=K - 1, replace=False)) if K > 1 else []
+    while True:
+        edges = [0] + cuts + [m]
+        if all(b - a <= 1024 and b - a >= 2 for a, b in zip(edges[:-1], edges[1:])): break
+        K += 1
+        cuts = [int(round(m * (i + 1) / K)) for i in range(K - 1)]
+    layers = []
+    for a, b in zip(edges[:-1], edges[1:]):
+        L = np.zeros(shape, dtype=int)
+        if ax == 0: L[a:b] = M[a:b]
+        else: L[:, a:b] = M[:, a:b]
+        if L.sum() >= 2: layers.append(L)
+    M = np.sum(layers, axis=0)
+    n = shape[0] * shape[1]
+    amp = {'shape': list(shape), 'v': [float(x) for x in np.round(rng.uniform(0.5, 1.5, n), 3)]}
+    wl = 5e-7
+    opd = {'shape': list(shape), 'v': [float(x) for x in np.round(rng.uniform(-1, 1, n), 3) * 2e-7]}
+    def mk(ls):
+        return {'kind': 'pupil', 'amp': amp, 'opd': opd, 'px': None, 'fl': 1.0,
+                'mask': {'shape': list(shape), 'ndim': 2 if len(ls) == 1 else 3, 'layers': [[int(x) for x in L.ravel()] for L in ls]}}
+    os_ = int(rng.integers(1, 3))
+    dx = [1e-4, 1e-4]; du = [5e-6, 5e-6]
+    alpha = float(rng.uniform(0.5, 2.0)) / (m * os_)
+    z = dx[0] * du[0] / (alpha * wl * os_)
+    seg, mono = [mk(layers)], [mk([M])]
+    for p in seg + mono: p['px'] = dx; p['fl'] = z
+    oshape = [int(rng.integers(3, 7)), int(rng.integers(3, 7))]
+    return {'kind': 'seg', 'mode': 'cf', 'seg': seg, 'mono': mono, 'wavelength': wl, 'extreme': 'big',
+            'prop': {'du': du, 'os': os_, 'shape': oshape, 'prop_shape': None, 'dx': dx, 'z': z}}
+
 def gen_mixed(rng):
     """chains mixing Tilt planes / Wavefront(tilt=...) with segmented Pupil planes (no fitted tilt): tilt elements before AND
     after the segmented plane(s) in most cases; both descriptions (segmented / monolithic) of every Pupil"""
@@ -172,6 +256,11 @@ def generate(rng, tier):
     n = {'quick': 150, 'thorough': 3000, 'search': 1000}[tier]
     out = []
     for k in range(n):
+        # extremes stream: half of the failing-input search; about 5 % of the other tiers (one big-aperture case per 100)
+        if tier == 'search' and k % 2 == 0:
+            out.append(gen_big(rng) if k % 10 == 0 else gen_phys(rng, prop=bool(k % 4))); continue
+        if tier != 'search' and k % 20 == 19:
+            out.append(gen_big(rng) if k % 100 == 19 else gen_phys(rng, prop=bool(k % 40 == 19))); continue
         if k % 7 == 6:
             out.append(gen_tilt(rng)); continue
         if k % 7 == 5:
@@ -206,6 +295,7 @@ def tags(c):
     if c['kind'] == 'tilt':
         return ['tilted-segments', f"tilt:K={len(c['layers'])}", 'tilt:chain-spacing' if c['chain'] else 'tilt:random-spacing']
     t = [f"mode:{c['mode']}", f"planes:{len(c['seg'])}", 'propagated' if 'prop' in c else 'not-propagated']
+    if c.get('extreme'): t.append('extreme:' + c['extreme'])
     for p in c['seg']:
         t.append(f"segments:{len(p['mask']['layers'])}")
         if H7._boxes_overlap(p): t.append('overlapping-boxes')
@@ -295,7 +385,7 @@ def impl(c):
 def _req(c, planes):
     mode = c['mode']
     r = {'op': 'c03.run' if 'prop' in c else 'c07.run', 'mode': mode, 'wavelength': vlib.fbits(c['wavelength']), 'focal': vlib.fbits(math.inf),
-         'px': None, 'planes': [H7.plane_req(dict(p, px=[int(x) for x in p['px']]), mode) for p in planes]}
+         'px': None, 'planes': [H7.plane_req(dict(p, px=[1, 1] if p['px'][0] == p['px'][1] else [1, 2]), mode) for p in planes]}
     if 'prop' in c:
         p = c['prop']
         r['prop'] = {'dx': vlib.fl(p['dx']), 'du': vlib.fl(p['du']), 'os': p['os'], 'shape': p['shape'], 'prop_shape': p['prop_shape'] or p['shape']}
@@ -308,11 +398,12 @@ def _mixed_req(c, planes):
     els = []
     for x in c['order']:
         if isinstance(x, dict): els.append({'kind': 'tilt', 'x': vlib.fbits(x['x']), 'y': vlib.fbits(x['y'])})
-        else: els.append(H7.plane_req(dict(planes[x], px=[int(v) for v in planes[x]['px']]), 'cf'))
+        else: els.append(H7.plane_req(dict(planes[x], px=[1, 1] if planes[x]['px'][0] == planes[x]['px'][1] else [1, 2]), 'cf'))
     return {'op': 'c03.chain', 'wavelength': vlib.fbits(c['wavelength']), 'wtilt': None if c['wtilt'] is None else vlib.fl(c['wtilt']),
             'elements': els, 'prop': _prop_req(c['prop'])}
 
 def requests(c, io):
+    if c.get('extreme') == 'big': return []          # oracle-only (size)
     if c['kind'] == 'mixed': return [_mixed_req(c, c['seg']), _mixed_req(c, c['mono'])]
     if c['kind'] == 'tilt':
         # the fitted OPD and tilt coefficients come from np.linalg.lstsq (trusted contract, C04): the model takes the fitted plane
@@ -331,7 +422,7 @@ def _scale(c, key='field', pre=False):
     f = 1.0
     for p in c['mono']:
         a = p['amp']
-        f *= max(1.0, max(abs(x) for x in a['v']) if 'v' in a else abs(a['scalar']))
+        f *= max(abs(x) for x in a['v']) if 'v' in a else abs(a['scalar'])
     if 'prop' in c and not pre: f *= max(p['mask']['shape'][0] * p['mask']['shape'][1] for p in c['mono'])
     return f if key == 'field' else f * f
 
@@ -364,6 +455,7 @@ def _cmp_chain(real_fields, real_field, real_int, m, bound):
     return None
 
 def compare(c, io, mo):
+    if c.get('extreme') == 'big': return None
     if c['kind'] == 'mixed':
         if 'exc' in io: return f"implementation raised {io['exc']}: {io.get('msg')}"
         b = (_scale(c, 'field', True), _scale(c, 'field'))
@@ -449,6 +541,15 @@ def oracle(c, io):
         x, y = H7._np_arr(s['pre'][key]), H7._np_arr(m['pre'][key])
         if not H7._close(x, y, mode, _scale(c, key, True)):
             return f'segmented and monolithic {key} differ after the chain of planes (max {np.max(np.abs(x - y)):.3g})'
+    # the field after the chain against the independent statement of what planes do (amplitude * exp(+2 pi i opd/lambda) inside
+    # the mask, 0 outside; pixel (i, j) at global (i - S0//2, j - S1//2)); the result must depend on opd only through opd/lambda
+    S0, S1 = m['pre']['shape']
+    tb = (-(S0 // 2), -(S0 // 2) + S0 - 1, -(S1 // 2), -(S1 // 2) + S1 - 1)
+    want = np.ones((S0, S1), dtype=complex)
+    for p in c['mono']: want = want * H7.plane_factor(p, mode, c['wavelength'], tb)
+    got = H7._np_arr(m['pre']['field'])
+    if not H7._close(got, want, mode, _scale(c, 'field', True)):
+        return f'monolithic field after the chain is not the product of amplitude * exp(2 pi i opd/lambda) over the planes (max {np.max(np.abs(got - want)):.3g})'
     # coherent addition: the intensity is the squared modulus of the summed complex amplitudes
     for name, r in (('segmented', s), ('monolithic', m)):
         f = H7._np_arr(r['pre']['field'])
